@@ -1589,7 +1589,10 @@ func callBin(n *node) {
 		n.exec = func(f *frame) bltn {
 			in := make([]reflect.Value, l)
 			for i, v := range values {
-				in[i] = getBinValue(getMapType, v, f)
+				// The arguments of a go statement are evaluated (and copied) at the go statement.
+				arg := getBinValue(getMapType, v, f)
+				in[i] = reflect.New(arg.Type()).Elem()
+				in[i].Set(arg)
 			}
 			go callFn(value(f), in)
 			return tnext
